@@ -43,6 +43,12 @@ def md_rpc(tag):
     return tag.split("_generated_")[1].split("_", 1)[1].rsplit("_", 1)[0]
 
 
+def client_method(rpc):
+    """name of the emitted client method (reference: snake case, one '_' appended to Python keywords)"""
+    import keyword
+    return snake(rpc) + ("_" if rpc.lower() in keyword.kwlist else "")
+
+
 def program_diff():
     fdps = [fb.f for fb in apis.samples_api()]
     g = gen.generate(apis.samples_api(), parameter="transport=grpc+rest")
@@ -110,7 +116,7 @@ def program_diff():
         # the whitespace post-processor may drop blank lines inside the docstring (C20 allows that inside string
         # literals): compare the non-blank lines, in order, with their exact indentation
         want = [("            " + l.rstrip()) for l in between.splitlines() if l.strip()]
-        m_ = re.search(r"def %s\(self.*?\.\. code-block:: python\n(.*?)\n\s*Args:" % snake(md_rpc(tag)), src, re.S)
+        m_ = re.search(r"def %s\(self.*?\.\. code-block:: python\n(.*?)\n\s*Args:" % client_method(md_rpc(tag)), src, re.S)
         have = [l.rstrip() for l in (m_.group(1).splitlines() if m_ else []) if l.strip()]
         if have == want:
             oks.append(f"docstring:{tag}")
@@ -126,6 +132,24 @@ def program_diff():
             ok = (md.get("file") == os.path.basename(name) and full and full[0].get("start") == s_i + 2
                   and full[0].get("end") == e_i and md["clientMethod"]["client"]["shortName"] == want_cls
                   and md["clientMethod"]["method"]["shortName"] in rpcs)
+            # parameter list of the metadata entry == signature of the emitted client method
+            want_params = None
+            cm = md["clientMethod"].get("shortName")
+            calls = [n.func.attr for n in ast.walk(tree) if isinstance(n, ast.Call) and isinstance(n.func, ast.Attribute)
+                     and isinstance(n.func.value, ast.Name) and n.func.value.id == "client"]
+            if calls != [cm] or cm != client_method(md_rpc(tag)):
+                ok = False
+                bad[f"metadata-method:{tag}"] = (f"sample calls client.{calls}, metadata names {cm!r}, the emitted client "
+                                                 f"method is {client_method(md_rpc(tag))!r}")
+            for node in ast.walk(ast.parse(src)):
+                if isinstance(node, ast.ClassDef) and node.name == want_cls:
+                    for f in node.body:
+                        if isinstance(f, (ast.FunctionDef, ast.AsyncFunctionDef)) and f.name == client_method(md_rpc(tag)):
+                            want_params = [a.arg for a in f.args.args[1:]] + [a.arg for a in f.args.kwonlyargs]
+            got_params = [p_.get("name") for p_ in md["clientMethod"].get("parameters", [])]
+            if want_params is not None and got_params != want_params:
+                ok = False
+                bad[f"metadata-params:{tag}"] = f"snippet metadata parameters {got_params} != emitted client signature {want_params}"
             if ok:
                 oks.append(f"metadata:{tag}")
             else:
@@ -152,7 +176,7 @@ def body(chk: core.Check):
     nlines = 12 if quick else 16
     chk.bound("sample_lines", nlines)
     chk.stubs.append(gen.PANDOC_STUB_NOTE)
-    chk.outside += ["executing the samples against a server", "result types / parameter lists in the snippet metadata"]
+    chk.outside += ["executing the samples against a server", "result / parameter TYPES in the snippet metadata (names are compared)"]
     src = open(f"{core.REPO}/gapic/samplegen_utils/snippet_index.py").read()
     i = src.index("def _parse_snippet_segments")
     chk.encoded("gapic/samplegen_utils/snippet_index.py: Snippet._parse_snippet_segments/full_snippet", src[i:i + 3000])
